@@ -137,9 +137,21 @@ func (err *yamlParseError) Error() string {
 			}
 		}
 	}
-	linestr, line, column := getLineByOffset(err.contents, index+1)
+	linestr, line, column := getLineByOffset(err.contents,
+		runeIndexToOffset(err.contents, index)+1)
 	return fmt.Sprintf("invalid yaml: %s:%d\n%s  %s",
 		err.fname, line, formatLineInfo(linestr, line, column), message)
+}
+
+// runeIndexToOffset converts the index in characters, which is what
+// the YAML parser reports, to the offset in bytes.
+func runeIndexToOffset(str string, index int) int {
+	for i := range str {
+		if index--; index < 0 {
+			return i
+		}
+	}
+	return len(str)
 }
 
 func getLineByOffset(str string, offset int) (linestr string, line, column int) {
